@@ -23,21 +23,29 @@ type vC21Op struct {
 // TestVerif_C21: consensus bookkeeping survives a crash after any finalization.
 func TestVerif_C21(t *testing.T) {
 	r := verifkit.Start(t, "C21", "fault_enumeration")
-	r.SetRule("W-feed histories with consensus-class snapshots (node removal, custodian update) between ordinary snapshots on 9 chains; for each consensus snapshot the " +
+	r.SetRule("W-feed histories with consensus-class snapshots (node removal, custodian update; universal mint, node pledge, node acceptance) between ordinary snapshots on 7..9 chains; for each consensus snapshot the " +
 		"replica is checkpointed, the storage-call sequence of its finalization is recorded, and EVERY call boundary of that sequence is cut (process stop before the call), " +
 		"alone and combined with the schedule injection 'another chain finalizes an ordinary snapshot at this boundary' where the real per-chain goroutines allow it " +
 		"(not while the topology lock is held); then the store is reopened and the node set up again. Oracle: if the consensus snapshot has a topology entry, the last " +
 		"recorded consensus snapshot after restart is that snapshot or a later one. non-trivial = distinct (operation, boundary, injection) cuts after which the consensus snapshot was durable")
 	r.Assume("a stop at a storage-call boundary is modelled by abandoning the node and reopening the Badger directory; every mutating store call is one committed Badger transaction")
 	rng := r.Rand()
-	histories := r.N(1, 10)
+	histories := r.N(2, 10)
 	scratch := t.TempDir()
 	cuts, durable := 0, 0
 
 	for h := 0; h < histories; h++ {
 		label := fmt.Sprintf("c21-%d-%d", r.Seed, h)
 		live := filepath.Join(scratch, label, "live")
-		f := verifNewFeed(t, label, 9, rng, live, nil)
+		// histories alternate between the node-removal/custodian family and the mint/pledge/accept family
+		// (mints only exist from batch 1707 on, so that family runs on an epoch five years back)
+		family := (h + int(r.Seed)) % 2
+		var f *verifFeed
+		if family == 0 {
+			f = verifNewFeed(t, label, 9, rng, live, nil)
+		} else {
+			f = verifNewFeedAt(t, label, 7, rng, live, nil, verifMintEpochUnix(), 1707)
+		}
 		w := verifgen.NewWallet(label, rng, &f.net.Custodian, 4)
 		assets := verifgen.Assets()
 
@@ -65,6 +73,13 @@ func TestVerif_C21(t *testing.T) {
 		if rng.Intn(2) == 0 {
 			plan = []string{"custodian-update", "node-remove", "custodian-update"}
 		}
+		if family == 1 {
+			plan = []string{"mint", "node-pledge", "node-accept"}
+			if rng.Intn(2) == 0 {
+				plan = []string{"node-pledge", "node-accept", "mint"}
+			}
+		}
+		var cand *verifgen.Candidate
 		for _, kind := range plan {
 			ordinary(3 + rng.Intn(6))
 			var chainId crypto.Hash
@@ -72,7 +87,21 @@ func TestVerif_C21(t *testing.T) {
 			var err error
 			var ts uint64
 			var newCust common.Address
+			var c *common.Snapshot
 			switch kind {
+			case "mint":
+				chainId, tx, ts, err = f.buildMint(w)
+			case "node-pledge":
+				chainId, tx, ts, cand, err = f.buildPledge(w)
+			case "node-accept":
+				if cand == nil {
+					err = fmt.Errorf("no pledging candidate")
+				} else {
+					c, tx, err = f.buildAccept(cand)
+				}
+				if err == nil {
+					chainId, ts = c.NodeId, c.Timestamp
+				}
 			case "node-remove":
 				ts = f.atHour(13+rng.Intn(6), 50*time.Minute)
 				chainId, tx, err = f.buildNodeRemove(ts)
@@ -88,7 +117,9 @@ func TestVerif_C21(t *testing.T) {
 				t.Logf("history %d: %s not buildable: %v", h, kind, err)
 				continue
 			}
-			c, err := f.nextSnapshot(chainId, []crypto.Hash{tx.PayloadHash()}, ts)
+			if c == nil { // an acceptance is round zero of the new node's own chain and was built above
+				c, err = f.nextSnapshot(chainId, []crypto.Hash{tx.PayloadHash()}, ts)
+			}
 			if err != nil {
 				r.Count("consensus_snapshot_not_buildable", 1)
 				t.Logf("history %d: %s snapshot: %v", h, kind, err)
@@ -143,11 +174,14 @@ func TestVerif_C21(t *testing.T) {
 				t.Fatalf("reboot live replica: %v", err)
 			}
 			f.cursor = cursor
-			d := f.deliver(op.snap, op.txs)
+			d := vC21Deliver(f, op)
 			if !d.Finalized {
-				d = f.deliver(op.snap, op.txs)
+				d = vC21Deliver(f, op)
 			}
 			if !d.Finalized {
+				if kind == "node-pledge" {
+					cand = nil
+				}
 				r.Count("consensus_snapshot_not_finalized_live_"+kind, 1)
 				t.Logf("history %d: %s not finalized live: err=%v panic=%v", h, kind, d.Err, d.PanicVal)
 				continue
@@ -172,6 +206,18 @@ func TestVerif_C21(t *testing.T) {
 	r.Finish()
 }
 
+// vC21Deliver hands the snapshot to the finalization handler; the acceptance path of the handler does not
+// report back through the action, so for it "finalized" is read from the topology.
+func vC21Deliver(f *verifFeed, op *vC21Op) verifDelivery {
+	d := f.deliver(op.snap, op.txs)
+	if op.kind == "node-accept" && !d.Finalized && !d.Panicked {
+		if st, _ := f.node.persistStore.ReadSnapshot(op.snap.Hash); st != nil {
+			d.Finalized = true
+		}
+	}
+	return d
+}
+
 // vC21Enumerate cuts the finalization of op at every storage-call boundary.
 func vC21Enumerate(t *testing.T, r *verifkit.Run, net *verifgen.Net, scratch, label, ckpt string, op *vC21Op, injs []*vC21Op) (int, int) {
 	run := filepath.Join(scratch, label, "run")
@@ -186,10 +232,10 @@ func vC21Enumerate(t *testing.T, r *verifkit.Run, net *verifgen.Net, scratch, la
 		t.Fatalf("boot checkpoint: %v", err)
 	}
 	px.calls = nil
-	d := f.deliver(op.snap, op.txs)
+	d := vC21Deliver(f, op)
 	if !d.Finalized {
 		px.calls = nil
-		d = f.deliver(op.snap, op.txs)
+		d = vC21Deliver(f, op)
 	}
 	seq := append([]verifCall{}, px.calls...)
 	f.stop()
@@ -265,7 +311,12 @@ func vC21Enumerate(t *testing.T, r *verifkit.Run, net *verifgen.Net, scratch, la
 			cuts++
 			r.Eval()
 			// restart on the plain store
-			f2, err := verifFeedOn(t, net, rng, run, nil)
+			var f2 *verifFeed
+			var rerr error
+			if panicked, pv, _ := verifkit.Guard(func() { f2, rerr = verifFeedOn(t, net, rng, run, nil) }); panicked {
+				rerr = fmt.Errorf("setup panics: %v", pv)
+			}
+			err = rerr
 			if err != nil {
 				r.Count("restart_failed_(C22_territory)", 1)
 				t.Logf("restart after cut %d (%s) failed: %v", k, method, err)
